@@ -63,6 +63,11 @@ static int load_frag_block(sqfs_block_processor_t *proc, sqfs_u32 index)
 			return 0;
 	}
 
+	/* the cached data is about to be replaced; if that fails half way,
+	   the block must not pass for the one it used to hold */
+	proc->cached_frag_blk->index = 0xFFFFFFFF;
+	proc->cached_frag_blk->size = 0;
+
 	ret = sqfs_frag_table_lookup(proc->frag_tbl, index, &info);
 	if (ret != 0)
 		return ret;
